@@ -379,6 +379,7 @@ impl Scenario for C19Des {
         ("cancel_after_completion", cancels_after_done),
         ("task_reorder(>=2 ready)", if case.fifo { 0 } else { multi }),
         ("clock_jump_over_2_deadlines", st.clock_jumps_over_2.load(SeqCst)),
+        ("far_ahead_delay(2^32 us/ms/s, 2^64 ns)", case.tasks.iter().filter(|t| t.far > 0).count() as u64),
       ],
       reach: vec![],
       resolved: None,
